@@ -268,10 +268,14 @@ func runStructural(t *testing.T, id, level, rule string, quick, thorough int, pf
 func TestC05(t *testing.T) {
 	pf := fullProfile()
 	pf.Hooks = false
+	// the scratch modules of this check live in directories with per-cent signs in their names: the positions in the
+	// warnings must come out verbatim
+	pg.ScratchPrefix = "m%vat%d100%-"
+	defer func() { pg.ScratchPrefix = "m" }()
 	runStructural(t, "C05", "exploration",
 		"rapid-generated programs with destination shapes nested 0-3 deep (by-value structs of different types, embedded local/imported, anonymous structs also inside imported types, imported structs with only hidden members, empty structs), fields targeted by several notations or by a notation and a :skip. "+
 			"Oracle: the set of destination leaves visible from the home package is recomputed from the harness's own type-check; from the output every generated function's assignments, `// skip:` and `// no match:` comments are collected: each leaf is covered exactly once (itself or an ancestor), no mentioned path has an invisible component, "+
-			"and every `no match` has its own stderr warning starting with <setup path>:<line> of the method or one of its notations. Non-trivial: destination with a nested/embedded/anonymous/hidden/empty struct or an explicitly targeted field; distinct by program text.",
+			"and every `no match` has its own stderr warning starting with <setup path>:<line> of the method or one of its notations (the scratch module path contains per-cent signs). Non-trivial: destination with a nested/embedded/anonymous/hidden/empty struct or an explicitly targeted field; distinct by program text.",
 		1600, 40000, pf,
 		func(p *pg.Prog, r *structResult) bool {
 			for _, plan := range r.Plans {
